@@ -631,6 +631,19 @@ func NewLockedBooksMonitor(e *Env) *Monitor {
 			}
 			sl = sl.Add(r1.Amount.Amount)
 			ss = ss.Add(r2.Amount.Amount)
+			// the per-account summary endpoint reports the same books (and the account's own balance)
+			if r3, e3 := ek.EnterpriseAccount(ctx, &enttypes.QueryEnterpriseAccountRequest{Address: a.Addr.String()}); e3 != nil {
+				viol("locked-query-error", "query", "EnterpriseAccount query error %v", e3)
+			} else {
+				ao := o.Accts[a.Addr.String()]
+				bal := ao.Bal.AmountOf(o.EntParams.Denom)
+				ac := r3.Account
+				if !ac.LockedEfund.Amount.Equal(r1.Amount.Amount) || !ac.SpentEfund.Amount.Equal(r2.Amount.Amount) || !ac.LockedEfund.Amount.Equal(ao.Locked) || !ac.SpentEfund.Amount.Equal(ao.Spent) ||
+					!ac.GeneralSupply.Amount.Equal(bal) || !ac.Spendable.Amount.Equal(bal.Add(ao.Locked)) {
+					viol("locked-queries-disagree", "enterprise-account", "EnterpriseAccount(%s) reports locked %s spent %s balance %s spendable %s; LockedUndByAddress %s, SpentEFUNDByAddress %s, books locked %s spent %s, bank balance %s",
+						a.Addr, ac.LockedEfund, ac.SpentEfund, ac.GeneralSupply, ac.Spendable, r1.Amount, r2.Amount, ao.Locked, ao.Spent, bal)
+				}
+			}
 		}
 		esc := o.Accts[escrow].Bal.AmountOf(o.EntParams.Denom)
 		if !tl.Amount.Amount.Equal(sl) || !tl.Amount.Amount.Equal(esc) || !ts.Amount.Amount.Equal(ss) {
